@@ -53,6 +53,10 @@ func (s *Schema) RemoveType(typ string) {
 	for i := range s.Types {
 		if s.Types[i].Name == typ {
 			s.Types = append(s.Types[0:i], s.Types[i+1:]...)
+
+			// Type names are unique and the slice has just been
+			// shortened, so the loop must not go on.
+			return
 		}
 	}
 }
